@@ -104,7 +104,25 @@ fn name_failure(t: &TD, n: &str) -> Option<String> {
 }
 
 fn push_failure(t: &TD, cs: &[TD]) -> Option<String> {
-    let mut real = t.build();
+    push_failure_from(t, cs, false)
+}
+
+/// the same with the term built on another thread and handed over (a term is `Send`; whatever its sets
+/// remember of the thread that filled them must not matter to a mutator running here)
+fn push_failure_across_threads(t: &TD, cs: &[TD]) -> Option<String> {
+    push_failure_from(t, cs, true)
+}
+
+fn push_failure_from(t: &TD, cs: &[TD], elsewhere: bool) -> Option<String> {
+    let mut real = if elsewhere {
+        let t2 = t.clone();
+        match on_fresh_thread(None, move || t2.build()) {
+            Some(r) => r,
+            None => return Some("building the term on another thread failed".into()),
+        }
+    } else {
+        t.build()
+    };
     let before = canon_real(&real);
     let built: Vec<_> = cs.iter().map(|c| c.build()).collect();
     // the argument is `impl IntoIterator`: a Vec, a filtered iterator (size_hint lower bound 0),
@@ -127,6 +145,17 @@ fn push_failure(t: &TD, cs: &[TD]) -> Option<String> {
         (Some(want), Ok(())) => {
             if after != want.canon() {
                 Some(format!("push_components succeeded but the term is {} (expected {})", after, want.canon()))
+            } else if want.k.shape() == Shape::SetN && {
+                // an unordered compound holds each member once: the number of components the term reports
+                // is the number of distinct members of the model (the canonical form above cannot see a
+                // member that is stored twice)
+                let mut ks: Vec<String> = want.kids.iter().map(|k| k.canon()).collect();
+                ks.sort();
+                ks.dedup();
+                use narsese::api::GetTerm as _;
+                real.get_components().len() != ks.len()
+            } {
+                Some(format!("push_components succeeded, the term is {} but it now reports {} components{}", after, real.get_components().len(), if elsewhere { " (the term was built on another thread)" } else { "" }))
             } else {
                 None
             }
@@ -214,6 +243,36 @@ pub fn run(ctx: &mut Ctx) {
         }
         let rounds = if ctx.thorough { 60 } else { 6 };
         concurrent_family(ctx, "C17", "set_atom_name / push_components", cases, rounds, |c| name_failure(&c.0, &c.1).or_else(|| push_failure(&c.0, &c.2)));
+    }
+    // terms built on another thread, then given members here - among them members they already hold
+    // (nested unordered compounds and symmetric statements: their hash is the one part of a term that
+    // could remember where it was computed)
+    {
+        let mut xrng = ctx.rng(0x17AC);
+        let gx = Gen { names: &names, max_depth: 3, max_arity: 4, placeholders: false, set_bias: true };
+        let n = ctx.share(1200, 12_000);
+        for i in 0..n {
+            let members: Vec<TD> = (0..2 + i % 3)
+                .map(|j| match (i + j) % 3 {
+                    0 => TD::comp(Kind::SetExt, vec![gx.term(&mut xrng, 1, false), gx.term(&mut xrng, 1, false)]),
+                    1 => TD::bin(Kind::Sim, gx.term(&mut xrng, 1, false), gx.term(&mut xrng, 1, false)),
+                    _ => gx.term(&mut xrng, 2, false),
+                })
+                .collect();
+            let k = [Kind::SetExt, Kind::SetInt, Kind::IntExt, Kind::IntInt, Kind::Conj, Kind::Disj, Kind::ConjPar][i as usize % 7];
+            let t = TD::comp(k, members.clone());
+            let mut cs: Vec<TD> = members.iter().take(1 + i as usize % 3).cloned().collect();
+            if i % 2 == 0 {
+                cs.push(gx.term(&mut xrng, 1, false));
+            }
+            ctx.report.eval();
+            ctx.report.bump("family.built-on-another-thread");
+            ctx.report.nontrivial(&format!("x|{}|{}", t.canon(), cs.len()));
+            if let Some(w) = push_failure_across_threads(&t, &cs) {
+                ctx.report.violate(format!("C17|push-across-threads|{}", k.tag()), w.clone(), J::obj().set("term", t.to_json()).set("op", "push_components").set("components", J::Arr(cs.iter().map(|c| c.to_json()).collect())).set("across_threads", true).set("why", w));
+                break;
+            }
+        }
     }
 
     // (0) fixed-arity terms whose components are (still) bare placeholders, and lists of exactly their
@@ -368,7 +427,7 @@ pub fn replay(ctx: &mut Ctx, d: &J) -> Option<()> {
         }
         _ => {
             let cs: Vec<TD> = d.get("components")?.as_arr()?.iter().map(TD::from_json).collect::<Option<Vec<_>>>()?;
-            if let Some(w) = push_failure(&t, &cs) {
+            if let Some(w) = push_failure_from(&t, &cs, d.get("across_threads").is_some()) {
                 ctx.report.violate(format!("C17|push|{}", t.k.tag()), w, d.clone());
             }
         }
